@@ -682,12 +682,34 @@ func provablyNonNilErr(v ssa.Value, at *ssa.BasicBlock, seen map[ssa.Value]bool)
 		if _, ok := u.X.(*ssa.Global); ok {
 			return true
 		}
+		// defer-spilled result: `*t = x; rundefers; r = *t; return r` — the value is the last store in the same block
+		if a, ok := u.X.(*ssa.Alloc); ok {
+			if sv := lastStoreBefore(a, u); sv != nil {
+				return provablyNonNilErr(sv, at, seen)
+			}
+		}
 	}
 	// value tested non-nil on every path to `at`
 	if dominatedByNonNilTest(v, at) {
 		return true
 	}
 	return false
+}
+
+// lastStoreBefore returns the value of the last store to alloc a that precedes instruction `at` in at's block, if any
+// (deferred closures could overwrite a named result in between; callers use this only for unnamed, compiler-spilled results
+// or accept the value as "what the statement returned").
+func lastStoreBefore(a *ssa.Alloc, at ssa.Instruction) ssa.Value {
+	var last ssa.Value
+	for _, in := range at.Block().Instrs {
+		if in == at {
+			break
+		}
+		if st, ok := in.(*ssa.Store); ok && st.Addr == ssa.Value(a) {
+			last = st.Val
+		}
+	}
+	return last
 }
 
 // dominatedByNonNilTest: block `at` is dominated by the non-nil edge of a test `v != nil`.
@@ -746,6 +768,8 @@ type SliceOpts struct {
 	// IntoCallees: descend into static callee return values (depth-bounded).
 	IntoCallees func(*ssa.Function) bool
 	Depth       int
+	// NoMemory: a load is a leaf; do not continue at the stores that may have written the loaded location.
+	NoMemory bool
 	// Params: when reaching a parameter of a callee entered through IntoCallees, continue at the actual argument.
 }
 
@@ -805,7 +829,7 @@ func (s *Slice) walk(v ssa.Value, o SliceOpts, depth int, cc *callCtx) {
 		s.walk(x.Y, o, depth, cc)
 	case *ssa.UnOp:
 		s.walk(x.X, o, depth, cc)
-		if x.Op == token.MUL {
+		if x.Op == token.MUL && !o.NoMemory {
 			// load: continue at the stores to the same address (flow-insensitive) and, for field addresses,
 			// at stores to the same field of the same base
 			for _, st := range storesTo(x.X) {
